@@ -195,11 +195,37 @@ def wrapping_a_wrapper_is_isolated(S):
     S.ensure("set-default-on-wrapper-does-not-change-original", frame.diff(before, frame.snap(w1)) is None)
 
 
-@scenario("C13", [UF + ".__call__", UF + ".apply_to_batch"], configs=["batch=3"], bounded="batch size 3 (the loop is unrolled); values symbolic")
+@scenario("C13", [UF + ".__call__", UF + ".apply_to_batch"], configs=["batch=3", "batch=3/optional-parameter-declared-before-a-supplied-one"], bounded="batch size 3 (the loop is unrolled); values symbolic")
 def vectorised_call_binds_row_i_of_every_batched_argument_by_name(S):
     """__call__(args, vectorize=True): the function is called once per row i with, BY NAME, row i of every argument that
-    has the batch length and the whole value of every shorter (constant) argument; the results are returned in order."""
+    has the batch length and the whole value of every shorter (constant) argument; the results are returned in order.
+    Second configuration: f(x, a=A, b=B) called with x and b only -- the omitted optional parameter a (declared BEFORE
+    the supplied b) gets its declared default, b gets row i of what is stored under 'b'."""
     from tpv.tlib import Tensor
+
+    if "optional" in S.cfg:
+        A, Bd = S.tensor("default_a", [1]), S.tensor("default_b", [1])
+        f = UserFn("f", ["x", "a", "b"], {"a": A, "b": Bd})
+        w = S.new(UF, f)
+        X, Bv = S.tensor("X", [3, 2]), S.tensor("Bv", [3, 1])
+        for given in ({"b": Bv, "x": X}, {"x": X, "extra": S.tensor("E", [3, 1]), "b": Bv}):
+            n0 = len(f.calls)
+            out = S.method(w, "__call__", dict(given), True)
+            tag = "-".join(given)
+            S.ensure(f"[{tag}]:one-call-per-row", len(f.calls) == n0 + 3)
+            for i, c in enumerate(f.calls[n0 : n0 + 3]):
+                b = c["bound"]
+                S.ensure(f"[{tag}]:row-{i}-binds-exactly-the-declared-names", sorted(b) == ["a", "b", "x"])
+                S.ensure(f"[{tag}]:row-{i}-omitted-optional-parameter-gets-its-declared-default", b.get("a") is A)
+                okb = isinstance(b.get("b"), Tensor) and b["b"].val.rank == 1
+                S.ensure(f"[{tag}]:row-{i}-b-is-a-row", okb)
+                if okb:
+                    S.forall(f"[{tag}]:row-{i}-b-is-row-{i}-of-what-is-stored-under-b", b["b"], lambda q, i=i, b=b: b["b"].val.at(q) == Bv.val.at([(i,), q[0]]))
+                okx = isinstance(b.get("x"), Tensor) and b["x"].val.rank == 1
+                S.ensure(f"[{tag}]:row-{i}-x-is-a-row", okx)
+                if okx:
+                    S.forall(f"[{tag}]:row-{i}-x-is-row-{i}-of-x", b["x"], lambda q, i=i, b=b: b["x"].val.at(q) == X.val.at([(i,), q[0]]))
+        return
 
     # pre: every argument and default has a length (a plain number as default makes len() raise -- rejected, not mis-bound)
     f = UserFn("f", ["x", "c", "k"], {"k": S.tensor("default_k", [1])})
